@@ -1736,3 +1736,11 @@ mutant("c12-sem-default-fills-everything", "C12", (V, "            value[np.isna
 # ------------------------------------------------------------------------------------------ T17 number formatting (C14)
 mutant("c14-str-zero-d-fixed-three", "C14", (O, '                return f"{x.item():.{settings.decimals}f}"', '                return f"{x.item():.3f}"'), "T17/Operation.str")
 mutant("c14-str-general-format", "C14", (O, '            return f"{x:.{settings.decimals}f}"', '            return f"{x:.{settings.decimals}g}"'), "T17/Operation.str")
+
+# ------------------------------------------------------------------------------------------ C14 RT-sem (round trip by interpretation)
+mutant("c14-rt-term-name-and-class-swapped", "C14", (X, "            (Op.as_identifier(term.name), Op.class_name(term), term.parameters()),", "            (Op.class_name(term), Op.as_identifier(term.name), term.parameters()),"), "RT-sem/")
+mutant("c14-rt-floats-printed-with-str", "C14", (X, "        elif isinstance(value, float):\n            result.append(Op.str(value))", "        elif isinstance(value, float):\n            result.append(str(value))"), "T10/")
+mutant("c14-rt-importer-keeps-first-description-only", "C14", (I, """                elif key == "description":
+                    engine.description = value""", """                elif key == "description":
+                    engine.description = engine.description or value.split(":")[0]"""), "T10/Engine.description")
+mutant("c14-rt-output-terms-before-defuzzifier-lost", "C14", (X, "        if variable.terms:\n            result += [(self.indent + self.term(term)) for term in variable.terms]\n        return self.separator.join(result)\n\n    def rule_block", "        if variable.terms and variable.defuzzifier:\n            result += [(self.indent + self.term(term)) for term in variable.terms]\n        return self.separator.join(result)\n\n    def rule_block"), "T10/")
